@@ -16,7 +16,7 @@ import (
 func init() {
 	register(&Check{
 		ID:   "C12",
-		Rule: "case = (schema IR, spelling): a random struct schema (all id classes, three requiredness words, nested annotations to depth 3, nocopy option, ignored untagged/unexported fields) is rendered into struct tags in one of 9 spellings (canonical frugal; thrift tag with name prefix; both tags with a conflicting thrift tag; scalar annotations omitted; id-only tags; byte for i8; package-qualified struct/enum names; spaces around every token, in frugal and in thrift tags) and built as a fresh Go type, next to the canonically spelled type of the same IR. Oracles: the harness' own tag parser reads the spelled type back to the IR (generator self-check); EncodeObject bytes equal the reference encoder driven by the IR; DecodeObject equals the reference decoder; the spelled and the canonical type produce identical bytes and decode identically; ignored fields are neither written nor touched. Static zoo spellings (Spelling, ThriftOnly, BothTags, Ignoring) are included. distinct = distinct (type shape, spelling); non-trivial = the spelling differs textually from the canonical one in at least one tag",
+		Rule: "case = (schema IR, spelling): a random struct schema (all id classes, three requiredness words, nested annotations to depth 3, nocopy option, ignored untagged/unexported fields) is rendered into struct tags in one of 10 spellings (canonical frugal; thrift tag with name prefix; both tags with a conflicting thrift tag; scalar annotations omitted; id-only tags; byte for i8; package-qualified struct/enum names; spaces around every token, in frugal and in thrift tags; decimal ids with leading zeros) and built as a fresh Go type, next to the canonically spelled type of the same IR. Oracles: the harness' own tag parser reads the spelled type back to the IR (generator self-check); EncodeObject bytes equal the reference encoder driven by the IR; DecodeObject equals the reference decoder; the spelled and the canonical type produce identical bytes and decode identically; ignored fields are neither written nor touched. Static zoo spellings (Spelling, ThriftOnly, BothTags, Ignoring) are included. distinct = distinct (type shape, spelling); non-trivial = the spelling differs textually from the canonical one in at least one tag",
 		Plan: func(tier string) []BuildPlan {
 			if tier == "thorough" {
 				return []BuildPlan{{"plain", 200000}, {"checkptr", 40000}}
@@ -27,7 +27,7 @@ func init() {
 	})
 }
 
-var c12Spellings = []string{"canonical", "thrift", "both-conflict", "omit-scalar-annot", "id-only", "byte", "pkg-qualified", "spaces", "thrift-spaces"}
+var c12Spellings = []string{"canonical", "thrift", "both-conflict", "omit-scalar-annot", "id-only", "byte", "pkg-qualified", "spaces", "thrift-spaces", "zero-padded-id"}
 
 // annot renders a type annotation in the given spelling.
 func annot(r *gen.Rand, t *schema.Type, sp string) string {
@@ -81,7 +81,11 @@ func spellTag(r *gen.Rand, f *schema.Field, sp string) string {
 		}
 		return s
 	}
-	els := []string{pad(fmt.Sprint(f.ID)), pad(f.Req.String()), pad(annot(r, f.T, sp))}
+	id := fmt.Sprint(f.ID)
+	if sp == "zero-padded-id" {
+		id = fmt.Sprintf("%0*d", 2+r.Intn(5), f.ID) // decimal with leading zeros is still that decimal id
+	}
+	els := []string{pad(id), pad(f.Req.String()), pad(annot(r, f.T, sp))}
 	switch sp {
 	case "omit-scalar-annot":
 		if annotOptional(f.T) && !f.NoCopy {
